@@ -71,13 +71,28 @@ IsMac(x)    == ~IsSym(x) /\ x \in MacDefinite
 \* MappingsToKeep::new
 
 \* Big5: the <<code, character>> pairs this specification knows - Cmap!Big5Sample, the first six hanzi of the
-\* level 1 block (0xA440 .. 0xA445: U+4E00 U+4E59 U+4E01 U+4E03 U+4E43 U+4E5D) and ASCII.  Sources and probes of
+\* level 1 block (0xA440 .. 0xA445: U+4E00 U+4E59 U+4E01 U+4E03 U+4E43 U+4E5D) and the single bytes 0x00 .. 0x7F.  Sources and probes of
 \* the Big5 families stay inside them.
+\* Round 4: 0xA446 .. 0xA453 and 0xA45D (U+4E5F), and the characters Big5 holds TWICE: U+5341 (0xA2CC among the
+\* Hangzhou numerals, 0xA451 among the hanzi), U+5345 (0xA2CE, 0xA4CA), U+2550 (0xA2A4, 0xF9F9 in the ETEN box
+\* drawing extension).  The ENCODER of such a character (Font's side: how a character reaches the sub-table) yields
+\* its LAST code (WHATWG "index Big5 pointer": the last pointer for U+2550, U+255E, U+2561, U+256A, U+5341, U+5345);
+\* no other character of this table has two codes.  A code that is not a Big5 code at all (Cmap!ValidBig5Code: a
+\* single byte >= 0x80, a lead byte outside 0x81..0xFE, a trail byte outside 0x40..0x7E / 0xA1..0xFE) denotes no
+\* character, whatever a sub-table lists under it.
 Big5Known == Big5Sample \cup {<<42049, 20057>>, <<42050, 19969>>, <<42051, 19971>>, <<42052, 20035>>, <<42053, 20061>>}
-                        \cup {<<b, b>> : b \in 32 .. 126}
+                        \cup {<<42054, 20102>>, <<42055, 20108>>, <<42056, 20154>>, <<42057, 20799>>, <<42058, 20837>>,
+                              <<42059, 20843>>, <<42060, 20960>>, <<42061, 20992>>, <<42062, 20993>>, <<42063, 21147>>,
+                              <<42064, 21269>>, <<42065, 21313>>, <<42066, 21340>>, <<42067, 21448>>, <<42077, 20063>>,
+                              <<41676, 21313>>, <<41678, 21317>>, <<42186, 21317>>, <<63993, 9552>>, <<41636, 9552>>}
+                        \cup {<<b, b>> : b \in 0 .. 127}
 Big5KnownChars == {p[2] : p \in Big5Known}
-Big5ToUni(code) == IF \E p \in Big5Known : p[1] = code THEN (CHOOSE p \in Big5Known : p[1] = code)[2] ELSE NoChar
-UniToBig5Known(ch) == IF ch \in Big5KnownChars THEN (CHOOSE p \in Big5Known : p[2] = ch)[1] ELSE NoCode
+Big5KnownCodes == {p[1] : p \in Big5Known}
+Big5CodesOf(ch) == {p[1] : p \in {q \in Big5Known : q[2] = ch}}
+Big5Twice == {ch \in Big5KnownChars : Cardinality(Big5CodesOf(ch)) > 1}
+Big5ToUni(code) == IF ValidBig5Code(code) /\ code \in Big5KnownCodes THEN (CHOOSE p \in Big5Known : p[1] = code)[2] ELSE NoChar
+\* unicode_to_big5 (Font's side): the last code of a character that has two
+UniToBig5Known(ch) == IF ch \in Big5KnownChars THEN Max(Big5CodesOf(ch)) ELSE NoCode
 
 \* Character::new(ch, encoding)
 CharNew(code, enc) ==
